@@ -20,7 +20,23 @@ use serde_json::Value;
 use std::panic::{catch_unwind, AssertUnwindSafe};
 
 const PANIC: &str = "multiline-lookahead-cut-match-beyond-block";
-const CRLF_ML: &str = "crlf-multiline-bare-lf-terminator-rewritten";
+const ENGINE: &str = "regex-engine-not-leftmost-inner-literal";
+
+/// The pattern compiled by regex-automata's meta engine with ripgrep's syntax options, for *anchored* searches
+/// (which do not go through the unanchored prefilter / reverse-inner optimisations).
+fn anchored_engine(o: &Opts) -> Option<regex_automata::meta::Regex> {
+    regex_automata::meta::Regex::builder()
+        .syntax(
+            regex_automata::util::syntax::Config::new()
+                .multi_line(true)
+                .case_insensitive(o.icase)
+                .crlf(o.crlf)
+                .utf8(false),
+        )
+        .configure(regex_automata::meta::Regex::config().utf8_empty(false))
+        .build(&o.pat)
+        .ok()
+}
 
 fn viol(rep: &mut Report, kind: &str, class: &str, tie: &str, case: &str, detail: String) {
     rep.violation(Violation {
@@ -156,7 +172,6 @@ fn check_std_direct(
     let term = o.term_bytes();
     // 1. the events are slices of the file at their offsets, with the right line numbers (searcher's contract)
     let mut expects: Vec<Option<Expect>> = vec![];
-    let mut crlf_ml = false;
     for e in &trace.evs {
         match e {
             Ev::Break { .. } => expects.push(None),
@@ -190,11 +205,6 @@ fn check_std_direct(
                     }
                     let slow = !ms.is_empty();
                     let lines = split_lines(bytes);
-                    for (_, l) in &lines {
-                        if slow && o.crlf && l.last() == Some(&b'\n') && !(l.len() >= 2 && l[l.len() - 2] == b'\r') {
-                            crlf_ml = true;
-                        }
-                    }
                     if slow && o.vimgrep {
                         // --vimgrep: one record per match, on the first line of the block that overlaps it
                         rep.branch("std:vimgrep-multi-line-direct");
@@ -224,20 +234,16 @@ fn check_std_direct(
                     }
                     continue;
                 }
-                // "the first match in the line" is asked of the matcher in context: the buffer up to the end of the
-                // line's content (terminator stripped), searched from the start of the line — look-behind sees what
-                // precedes the line, exactly as for the searcher (an isolated copy of the line can answer
-                // differently, e.g. -w next to invalid UTF-8)
-                let cont_len = content(bytes, o.crlf).len();
-                let hay = &trace.bufs[*buf][..*rs + cont_len];
+                // "the first match in the line": the printer searches the line on its own (0cdcce3) — the line's
+                // content, terminator stripped, from its first byte; nothing before or after the line is visible
+                let hay = content(bytes, o.crlf);
                 // (also under -v: a reported non-matching line normally has no match and hence no column, but the
-                // printer shows one whenever its own search finds a match, e.g. \B next to invalid UTF-8)
-                let first =
-                    matcher.find_at(hay, *rs).ok().flatten().map(|m| grep_matcher::Match::new(m.start() - *rs, m.end() - *rs));
+                // printer shows one whenever its own search finds a match)
+                let first = matcher.find_at(hay, 0).ok().flatten();
                 let mut ms = vec![];
                 if o.vimgrep {
-                    let _ = matcher.find_iter_at(hay, *rs, |m| {
-                        ms.push(m.start() - *rs);
+                    let _ = matcher.find_iter_at(hay, 0, |m| {
+                        ms.push(m.start());
                         true
                     });
                 }
@@ -312,12 +318,9 @@ fn check_std_direct(
             }
         }
     }
-    let class = if crlf_ml {
-        CRLF_ML
-    } else {
-        ""
-    };
-    let fail = |d: String| Err((class.to_string(), d));
+    // a failure is attributed to a known-finding class only where that class's own mechanism is demonstrably
+    // the cause (see the text check below); everything else is reported unclassified
+    let fail = |d: String| Err((String::new(), d));
 
     // 2. walk the output
     let mut rest: &[u8] = out;
@@ -391,6 +394,33 @@ fn check_std_direct(
                         ex.line_off,
                         line_number_at(input, ex.line_off)
                     ));
+                }
+                // the engine's "first match" against an independent notion of leftmost: an anchored search at every
+                // earlier position of the line's own content (same syntax options) must find nothing
+                if has_col && !ex.col_unchecked && !ex.is_ctx && !ml_eff && !o.word && !o.xline {
+                    if let (Some(c), Some(are)) = (ex.col_rel, anchored_engine(o)) {
+                        let hay = content(line, o.crlf);
+                        for s2 in 0..c {
+                            let inp = regex_automata::Input::new(hay)
+                                .span(s2..hay.len())
+                                .anchored(regex_automata::Anchored::Yes);
+                            if let Some(m2) = are.find(inp) {
+                                rep.branch(&format!("class:{}:attributed", ENGINE));
+                                return Err((
+                                    ENGINE.to_string(),
+                                    format!(
+                                        "column {:?}: the engine's first match starts at {}, but the pattern matches at {} (anchored search finds [{}, {}))",
+                                        p.col,
+                                        c,
+                                        s2,
+                                        m2.start(),
+                                        m2.end()
+                                    ),
+                                ));
+                            }
+                        }
+                        rep.branch("std:leftmost-verified");
+                    }
                 }
                 if has_col && !ex.col_unchecked && p.col != ex.col_rel.map(|c| c as u64 + 1) {
                     return fail(format!("column {:?}, first match starts at {:?}", p.col, ex.col_rel));
